@@ -50,16 +50,6 @@ Proof.
   - apply alookup_canon.
 Qed.
 
-Lemma rwf_abs s : Inv s -> RWf (abs s).
-Proof.
-  intros I. constructor; unfold abs; simpl.
-  - apply ksorted_sm_map, ksorted_canon.
-  - apply ksorted_sm_map, ksorted_canon.
-  - apply ksorted_canon.
-  - intros k c. rewrite alookup_sm_map, alookup_canon. destruct (alookup k (st_channels s)) as [c0|] eqn:E; [|discriminate].
-    simpl. intros H; injection H as <-. unfold ksorted, abs_chan. simpl. rewrite keyed_keys. apply (inv_cl I _ _ E).
-Qed.
-
 Lemma rchan_eq a b : rc_name a = rc_name b -> rc_topic a = rc_topic b -> rc_modes a = rc_modes b ->
   rc_members a = rc_members b -> a = b.
 Proof. destruct a, b; simpl; intros; subst; reflexivity. Qed.
